@@ -110,6 +110,38 @@ impl Property for C02 {
         let text = format!("enr:{}", b64::encode(&w.bytes));
         let mut any_struct_reject = false;
         let mut any_accept = false;
+        // The verdict is a function of the input alone: the second pass repeats the comparison after the
+        // decoder has been fed neighbouring inputs (same record with the key's parity tag flipped, a
+        // signature byte flipped, the last byte flipped, one byte cut, the text without prefix / with a
+        // stray character) whose outcome is ignored.
+        for pass in 0..2 {
+        if pass == 1 {
+            let mut n: Vec<Vec<u8>> = Vec::new();
+            if let Some(i) = w.bytes.windows(11).position(|x| x == b"\x89secp256k1\xa1") {
+                if i + 11 < w.bytes.len() {
+                    let mut b = w.bytes.clone();
+                    b[i + 11] ^= 1;
+                    n.push(b);
+                }
+            }
+            for idx in [4usize, w.bytes.len().saturating_sub(1)] {
+                if idx < w.bytes.len() {
+                    let mut b = w.bytes.clone();
+                    b[idx] ^= 0x10;
+                    n.push(b);
+                }
+            }
+            if !w.bytes.is_empty() {
+                n.push(w.bytes[..w.bytes.len() - 1].to_vec());
+            }
+            for kt in ALL_KEY_TYPES {
+                for b in &n {
+                    let _ = libio::decode(kt, b);
+                }
+                let _ = libio::parse_text(kt, &text[4..]);
+                let _ = libio::parse_text(kt, &format!("{text}="));
+            }
+        }
         for kt in ALL_KEY_TYPES {
             let want = ref_decode_exact(&w.bytes, kt);
             st.evals(2);
@@ -117,8 +149,10 @@ impl Property for C02 {
             let got_txt = libio::parse_text(kt, &text);
             match &want {
                 RefOutcome::Unspecified(u) => {
-                    st.unspecified();
-                    st.label(&format!("unspecified:{u:?}"));
+                    if pass == 0 {
+                        st.unspecified();
+                        st.label(&format!("unspecified:{u:?}"));
+                    }
                     continue;
                 }
                 RefOutcome::Accept(r) => {
@@ -131,25 +165,26 @@ impl Property for C02 {
                                     return Err(format!("[{kt:?}] decode consumed {n} of {} bytes", w.bytes.len()));
                                 }
                             }
-                            LibOut::Err(e) => return Err(format!("[{kt:?}] {path} rejects a well-formed record ({}): {e}", w.label)),
+                            LibOut::Err(e) => return Err(format!("[{kt:?}] {path} rejects a well-formed record ({}{}): {e}", w.label, if pass == 1 { "; second look, after neighbouring inputs were decoded" } else { "" })),
                             LibOut::Panic(p) => return Err(format!("[{kt:?}] {path} panicked on a well-formed record: {p}")),
                         }
                     }
                 }
                 RefOutcome::Reject(rej) => {
-                    if rej.structural() {
+                    if rej.structural() && pass == 0 {
                         any_struct_reject = true;
                         st.label(&format!("reject:{rej:?}"));
                     }
                     for (path, g) in [("decode", &got), ("from_str", &got_txt)] {
                         match g {
                             LibOut::Err(_) => {}
-                            LibOut::Ok(..) => return Err(format!("[{kt:?}] {path} accepts an input the rules reject ({rej:?}; generated as {})", w.label)),
+                            LibOut::Ok(..) => return Err(format!("[{kt:?}] {path} accepts an input the rules reject ({rej:?}; generated as {}{})", w.label, if pass == 1 { "; second look, after neighbouring inputs were decoded" } else { "" })),
                             LibOut::Panic(p) => return Err(format!("[{kt:?}] {path} panicked instead of returning an error ({rej:?}): {p}")),
                         }
                     }
                 }
             }
+        }
         }
         st.label(&format!("mut:{bl}"));
         if any_accept {
